@@ -86,6 +86,8 @@ pub struct Sim {
     pub held: Vec<Option<BindRequest<'static>>>,
     pub exited: Option<String>,
     pub livelock: bool,
+    /// the source has ended or failed: later deliveries are dropped
+    pub src_over: bool,
 }
 
 fn err_name(e: &Error) -> &'static str {
@@ -145,6 +147,7 @@ impl Sim {
             held: vec![],
             exited: None,
             livelock: false,
+            src_over: false,
         };
         // first poll of the task (registers its wakers); produces no observable event
         let _ = s.settle();
@@ -384,6 +387,8 @@ impl Sim {
                 self.mux = None;
                 "unit".into()
             }
+            // nothing arrives any more once the source has ended or failed
+            ["deliver", ..] if self.src_over => "unit".into(),
             ["deliver", "bin", h] => {
                 self.ws.deliver(In::Msg(Message::Binary(Bytes::from(crate::unhex(h).expect("hex")))));
                 "unit".into()
@@ -394,10 +399,11 @@ impl Sim {
                 // the peer sends Close and then closes the connection
                 self.ws.deliver(In::Msg(Message::Close));
                 self.ws.end_source();
+                self.src_over = true;
                 "unit".into()
             }
-            ["deliver", "err"] => { self.ws.deliver(In::Err); "unit".into() }
-            ["deliver", "eof"] => { self.ws.end_source(); "unit".into() }
+            ["deliver", "err"] => { self.ws.deliver(In::Err); self.src_over = true; "unit".into() }
+            ["deliver", "eof"] => { self.ws.end_source(); self.src_over = true; "unit".into() }
             _ => "bad-op".into(),
         }
     }
